@@ -18,8 +18,8 @@ THEOREMS (coq/theories/C06/Property.v, closed under the global context):
   C06_<site>_refuted_before_fix x8   raise + changed observation under original_cfg (the code before /repo c5c2382, dff454e) at
                                  SIOExtend SIOInsert SIOSetItem SInitSetItem SNameEmpty SGExtend SGInsert, replace_all_uses_with(rgo)
 FULL since the deepening round (see c01.py): no `in_scope`; Graph(...) with arguments, popitem/update/setdefault/|= and
-Graph.sort (cycle -> nothing touched) are inside the frame theorem.  OPEN site in the model: C06_initupdate_refuted
-(initializers.update({ok, rejected}) keeps `ok`; finding init-update-partial, proposed_fixes/
+Graph.sort (cycle -> nothing touched) are inside the frame theorem.  Repaired since: C06_initupdate_refuted_before_fix
+(initializers.update({ok, rejected}) kept `ok`; finding init-update-partial, /repo 4f0fb1e = proposed_fixes/
 C06-initializers-update-validate-first.diff: 772 tests pass, tie clean with VERIF_C01_FIXED=SInitUpdate).  rename_values
 and the other convenience functions stay oracle-only.
 
@@ -102,8 +102,8 @@ def run(ck) -> None:
     C.run_check(ck, "c06")
     C.print_broken(ck)
     ck.level = "proof"
-    ck.notes.append("C06_raise_frame_fixed / C06_raise_frame are full statements over the 36-op alphabet; open model site: "
-                    "SInitUpdate (init-update-partial); convenience functions and stepped slices are oracle-only")
+    ck.notes.append("C06_raise_frame_fixed / C06_raise_frame are full statements over the 36-op alphabet; no open model site raises; "
+                    "convenience functions and stepped slices are oracle-only")
 
 
 def replay(rp: dict) -> int:
